@@ -1,6 +1,6 @@
 (** Proofs about the relay model (C01). *)
 From Gnmi Require Import Base.Prelude CTree.CTreeModel CTree.CTreeProofs CTree.CTreeTheorems
-  Pipeline.PipelineModel.
+  Pipeline.PipelineModel Pipeline.PipelineCheck.
 Open Scope Z_scope.
 
 (** * Collector glue *)
@@ -2155,7 +2155,8 @@ Proof.
         now destruct (validate_In cfg n t Hv Hnt).
       + intros n T. fold (initial (keys (cf_targets cfg))). change (map (fun n0 : string => (n0, None)) (keys (cf_targets cfg)))
           with (ps_cache (initial (keys (cf_targets cfg)))). rewrite Hinit.
-        destruct (existsb _ _); [|discriminate]. intros E; inversion E as [E1]. split; [exact I|].
+        destruct (existsb (String.eqb n) (keys (cf_targets cfg))); [|discriminate].
+        intros E. injection E as <-. split; [exact I|].
         intros k g. cbn. discriminate.
       + intros g r. cbn. discriminate.
     - cbn. reflexivity. }
@@ -2179,3 +2180,232 @@ Proof.
 Qed.
 
 End Multi.
+
+(** * relay_faithful, for any number of targets and every schedule *)
+
+(** the stream conforms to a schema [Keys] and a value set [Vals] *)
+Definition conforms (name : string) (Keys : path -> Prop) (Vals : tv -> Prop) (s : list item) : Prop :=
+  Forall (item_good name Keys Vals) s /\ Forall no_porigin s /\ ts_increasing None s = true.
+
+Theorem relay_multi (name : string) (Keys : path -> Prop) (Vals : tv -> Prop) (Q Qr : path)
+    (cq : cquery) (s : list item) (cfg : config) (ss : streams) (sched : list action) :
+  (forall a b : path, Keys a -> Keys b -> strict_prefix a b = false) ->
+  (forall a : path, Keys a -> glob_free a = true) ->
+  (forall v : tv, Vals v -> to_scalar v <> None) ->
+  (forall a b : tv, Vals a -> Vals b -> tv_equal a b = true -> to_scalar a = to_scalar b) ->
+  Q = name :: Qr -> glob_free Q = true ->
+  (forall k : path, Keys k -> strict_prefix (name :: k) Q = false) ->
+  sub_query cq = Q -> g_target (cq_prefix cq) = name ->
+  complete_path (cq_prefix cq) (cq_path cq) = Some Qr ->
+  conforms name Keys Vals s ->
+  validate cfg = true -> NoDup (keys (cf_targets cfg)) ->
+  (forall n, In n (keys (cf_targets cfg)) -> is_glob n = false) ->
+  In name (keys (cf_targets cfg)) ->
+  NoDup (keys ss) -> assoc name ss = Some s ->
+  (forall n' l, In (n', l) ss -> Forall (item_nometa n') l) ->
+  exists l, pipeline cfg ss cq sched = VLeaves l /\
+            Permutation l (selects Q (stamp_paths name (replay s))).
+Proof.
+  intros K1 K2 V1 V2 HQ HQg HQa Hq Ht Hc (Hgood & Hno & Hts) Hv Hndt Hng Hin Hnds Hs Hok.
+  assert (Hne : name <> "").
+  { apply in_map_iff in Hin as ([n0 t] & E & Hnt). cbn in E. subst n0. now destruct (validate_In cfg name t Hv Hnt). }
+  destruct (relay_multi_tf name Keys Vals Q Qr K1 K2 V1 V2 HQ HQg HQa Hne cq Hq Ht Hc s Hgood Hts
+              cfg ss sched Hv Hndt Hng Hin Hnds Hs Hok) as (l & Hp & Hnd & Hl).
+  exists l. split; [assumption|].
+  pose proof (NoDup_replay s) as HndF.
+  assert (Heq : forall k, option_map snd (tf_run name s k) = flook (replay s) k).
+  { intros k. apply (run_equiv name s [] [] None); auto. }
+  apply NoDup_Permutation.
+  - now apply NoDup_of_keys.
+  - apply NoDup_of_keys. unfold selects. apply NoDup_keys_filter. now apply NoDup_stamp_paths.
+  - intros [p sc]. rewrite Hl. unfold selects. rewrite filter_In. cbn [fst]. rewrite in_stamp_paths. split.
+    + intros (k & -> & Hu & Hd). split; [|exact Hu]. specialize (Heq k).
+      destruct (tf_run name s k) as [[t0 v]|]; [|discriminate]. cbn in Heq, Hd.
+      exists k, v. split; [apply flook_In; auto|auto].
+    + intros [(k & v & Hkv & Hs' & ->) Hu]. exists k. split; [reflexivity|]. split; [exact Hu|].
+      apply (flook_In _ _ _ HndF) in Hkv. specialize (Heq k). rewrite Hkv in Heq.
+      destruct (tf_run name s k) as [[t0 v0]|]; [|discriminate]. cbn in Heq. inversion Heq; subst. exact Hs'.
+Qed.
+
+(** ** the hypotheses are satisfiable (and the conclusion is about a non-empty view) *)
+Module RelayExample.
+Definition el (n : string) : pelem := {| e_name := n; e_keys := [] |}.
+Definition gp (o : string) (es : list pelem) : gpath :=
+  {| g_origin := o; g_target := ""; g_elem := es; g_element := [] |}.
+Definition eth0 : pelem := {| e_name := "b"; e_keys := [("name", "eth0")] |}.
+Definition s1 : list item :=
+  [ IUpd {| n_ts := 100; n_prefix := None;
+            n_updates := [(gp "" [el "a"; eth0; el "c"], TVInt 5); (gp "" [el "a"; el "d"], TVString "up")];
+            n_deletes := [] |};
+    ISync;
+    IUpd {| n_ts := 200; n_prefix := Some (gp "foo" [el "x"]);
+            n_updates := [(gp "" [el "y"], TVDecimal 15 1)]; n_deletes := [] |};
+    IUpd {| n_ts := 300; n_prefix := None;
+            n_updates := [(gp "" [el "a"; el "d"], TVString "up")];
+            n_deletes := [gp "" [el "a"; eth0]] |} ].
+Definition s2 : list item :=
+  [ IUpd {| n_ts := 7; n_prefix := None; n_updates := [(gp "" [el "a"], TVAscii "x")]; n_deletes := [] |} ].
+Definition cfg : config :=
+  {| cf_requests := [("all", {| r_prefix := None; r_paths := [gp "" []] |})];
+     cf_targets := [("dev1", {| t_addresses := ["h:1"]; t_request := "all" |});
+                    ("dev2", {| t_addresses := ["h:2"]; t_request := "all" |})] |}.
+Definition ss : streams := [("dev1", s1); ("dev2", s2)].
+Definition q : cquery :=
+  {| cq_prefix := {| g_origin := ""; g_target := "dev1"; g_elem := []; g_element := [] |}; cq_path := gp "" [] |}.
+Definition sched : list action := [AIngest "dev1"; ASubscribe; AIngest "dev2"; ASend; AIngest "dev1"].
+Definition keyset : list path :=
+  [["openconfig"; "a"; "b"; "eth0"; "c"]; ["openconfig"; "a"; "d"]; ["foo"; "x"; "y"]].
+Definition valset : list tv := [TVInt 5; TVString "up"; TVDecimal 15 1].
+
+Lemma example :
+  exists l, pipeline cfg ss q sched = VLeaves l /\
+            Permutation l (selects ["dev1"] (stamp_paths "dev1" (replay s1))) /\ List.length l = 2%nat.
+Proof.
+  destruct (relay_multi "dev1" (fun k => In k keyset) (fun v => In v valset) ["dev1"] [] q s1 cfg ss sched)
+    as (l & Hl & Hp).
+  - intros a b Ha Hb. cbn in Ha, Hb.
+    repeat (destruct Ha as [<-|Ha]; [repeat (destruct Hb as [<-|Hb]; [reflexivity|]); contradiction|]). contradiction.
+  - intros a Ha. cbn in Ha. repeat (destruct Ha as [<-|Ha]; [reflexivity|]). contradiction.
+  - intros v Hv. cbn in Hv. repeat (destruct Hv as [<-|Hv]; [discriminate|]). contradiction.
+  - intros a b Ha Hb. cbn in Ha, Hb.
+    repeat (destruct Ha as [<-|Ha]; [repeat (destruct Hb as [<-|Hb]; [cbn; congruence|]); contradiction|]). contradiction.
+  - reflexivity.
+  - reflexivity.
+  - intros k Hk. cbn in Hk. repeat (destruct Hk as [<-|Hk]; [reflexivity|]). contradiction.
+  - reflexivity.
+  - reflexivity.
+  - reflexivity.
+  - split; [|split; [|reflexivity]].
+    + assert (Hi : forall nt, g_origin (spre "dev1" nt) <> meta_root ->
+                (forall u, In u (n_updates nt) ->
+                   rec_ok "dev1" (fun k => In k keyset) (fun v => In v valset)
+                     {| lr_ts := n_ts nt; lr_prefix := spre "dev1" nt; lr_path := fst u; lr_val := snd u |}) ->
+                item_good "dev1" (fun k => In k keyset) (fun v => In v valset) (IUpd nt))
+        by (intros nt A B; split; assumption).
+      unfold s1. repeat (apply Forall_cons; [|]); try apply Forall_nil; try exact I; apply Hi;
+        try (cbn; discriminate); intros u Hu; cbn in Hu;
+        repeat (destruct Hu as [<-|Hu];
+                [constructor; [reflexivity|cbn; discriminate|cbn; discriminate|cbn; auto 10|cbn; auto 10
+                              |split; cbn; congruence]|]); contradiction.
+    + unfold s1. repeat (apply Forall_cons; [|]); try apply Forall_nil; try exact I;
+        cbn; try discriminate; intros _; split; intros x Hx; cbn in Hx;
+        repeat (destruct Hx as [<-|Hx]; [reflexivity|]); contradiction.
+  - reflexivity.
+  - repeat constructor; cbn; intuition discriminate.
+  - intros n Hn. cbn in Hn. repeat (destruct Hn as [<-|Hn]; [reflexivity|]). contradiction.
+  - cbn. auto.
+  - repeat constructor; cbn; intuition discriminate.
+  - reflexivity.
+  - intros n' l0 Hin. cbn in Hin. repeat (destruct Hin as [E|Hin]; [inversion E; subst; repeat constructor; cbn; discriminate|]).
+    contradiction.
+  - exists l. split; [assumption|]. split; [assumption|].
+    apply Permutation_length in Hp. rewrite Hp. reflexivity.
+Qed.
+End RelayExample.
+
+(** * What is false of the model (the open findings), on witnesses *)
+Module Refuted.
+Import RelayExample.
+Definition cfg1 : config :=
+  {| cf_requests := [("all", {| r_prefix := None; r_paths := [gp "" []] |})];
+     cf_targets := [("dev1", {| t_addresses := ["h:1"]; t_request := "all" |})] |}.
+Definition upd (ts : Z) (pre : option gpath) (p : gpath) (v : tv) : item :=
+  IUpd {| n_ts := ts; n_prefix := pre; n_updates := [(p, v)]; n_deletes := [] |}.
+
+(** an origin carried in the path: relabelled openconfig (corpus/C01/kf_7_21_path_origin.json) *)
+Definition s_origin : list item := [upd 100 None (gp "foo" [el "a"; el "b"]) (TVInt 1)].
+
+Lemma path_origin_refuted :
+  exists l, pipeline cfg1 [("dev1", s_origin)] q [] = VLeaves l /\
+            ~ Permutation l (selects ["dev1"] (stamp_paths "dev1" (replay s_origin))).
+Proof.
+  eexists. split; [vm_compute; reflexivity|]. vm_compute. intros Hp.
+  apply Permutation_length_1 in Hp. discriminate.
+Qed.
+
+(** +0 then -0: suppressed as unchanged (corpus/C01/kf_negative_zero_suppressed.json) *)
+Definition s_zero : list item :=
+  [upd 100 None (gp "" [el "a"; el "f"]) (TVDouble 0); upd 200 None (gp "" [el "a"; el "f"]) (TVDouble (2 ^ 63))].
+
+Lemma negative_zero_refuted :
+  exists l, pipeline cfg1 [("dev1", s_zero)] q [AIngest "dev1"; ASubscribe; ASend; ASend] = VLeaves l /\
+            ~ Permutation l (selects ["dev1"] (stamp_paths "dev1" (replay s_zero))).
+Proof.
+  eexists. split; [vm_compute; reflexivity|]. vm_compute. intros Hp.
+  apply Permutation_length_1 in Hp. discriminate.
+Qed.
+
+(** prefix in elem, path in element encoding: the delete of such a leaf takes
+    its siblings away from the client (corpus/C01/kf_mixed_encoding_delete.json) *)
+Definition gel (l : list string) : gpath := {| g_origin := ""; g_target := ""; g_elem := []; g_element := l |}.
+Definition s_mixed : list item :=
+  [upd 100 (Some (gp "" [el "a"])) (gel ["b"]) (TVInt 1);
+   upd 200 (Some (gp "" [el "a"])) (gp "" [el "c"]) (TVInt 2);
+   IUpd {| n_ts := 300; n_prefix := Some (gp "" [el "a"]); n_updates := []; n_deletes := [gel ["b"]] |}].
+
+Lemma mixed_encoding_refuted :
+  exists l, pipeline cfg1 [("dev1", s_mixed)] q [ASubscribe] = VLeaves l /\
+            ~ Permutation l (selects ["dev1"] (stamp_paths "dev1" (replay s_mixed))).
+Proof.
+  eexists. split; [vm_compute; reflexivity|]. vm_compute. intros Hp.
+  apply Permutation_nil in Hp. discriminate.
+Qed.
+End Refuted.
+
+(** * Soundness of the executable property checker K_P (PipelineCheck.kp_client) *)
+
+Lemma scalar_ind' (P : scalar -> Prop) :
+  (forall s, P (SStr s)) -> (forall z, P (SInt z)) -> (forall z, P (SUint z)) -> (forall b, P (SBool b)) ->
+  (forall s, P (SBytes s)) -> (forall b, P (SF32 b)) -> (forall b, P (SF64 b)) ->
+  (forall l, Forall P l -> P (SList l)) -> (forall s, P (SJson s)) -> (forall s, P (SJsonIetf s)) ->
+  forall v, P v.
+Proof.
+  intros H0 H1 H2 H3 H4 H5 H6 H7 H8 H9. fix IH 1.
+  intros [s|z|z|b|s|b|b|l|s|s];
+    [apply H0|apply H1|apply H2|apply H3|apply H4|apply H5|apply H6| |apply H8|apply H9].
+  apply H7. induction l as [|x l IHl]; constructor; [apply IH|apply IHl].
+Qed.
+
+Lemma scalar_eqb_eq a : forall b, scalar_eqb a b = true -> a = b.
+Proof.
+  induction a using scalar_ind'; intros [ ] Hb; cbn in Hb; try discriminate;
+    try (apply String.eqb_eq in Hb; congruence);
+    try (apply Z.eqb_eq in Hb; congruence);
+    try (apply Bool.eqb_prop in Hb; congruence).
+  f_equal. revert l0 Hb. induction H as [|x l Hx Hl IH]; intros [|y l'] Hb; try discriminate; [reflexivity|].
+  apply andb_true_iff in Hb as [H1 H2]. f_equal; [now apply Hx|now apply IH].
+Qed.
+
+Lemma list_eqb_eq {A} (e : A -> A -> bool) :
+  (forall x y, e x y = true -> x = y) -> forall a b, list_eqb e a b = true -> a = b.
+Proof.
+  intros He. induction a as [|x a IH]; intros [|y b] H; cbn in H; try discriminate; [reflexivity|].
+  apply andb_true_iff in H as [H1 H2]. f_equal; auto.
+Qed.
+
+Lemma leaves_eqb_perm a b : leaves_eqb a b = true -> Permutation a b.
+Proof.
+  unfold leaves_eqb, sort_leaves. intros H.
+  apply (list_eqb_eq leaf_eqb) in H.
+  - rewrite (isort_perm pv_leb a), (isort_perm pv_leb b), H. reflexivity.
+  - intros [p x] [p' y]. unfold leaf_eqb. cbn. intros E. apply andb_true_iff in E as [E1 E2].
+    apply path_eqb_eq in E1. apply scalar_eqb_eq in E2. congruence.
+Qed.
+
+(** if K_P raises nothing about a client that reports leaves, and its guard
+    holds, the client's data leaves are a permutation of the target's final
+    state as the subscription selects it *)
+Lemma kp_client_sound i c q l :
+  let name := g_target (cq_prefix q) in
+  configured c name = true -> hyp_stream (stream_of c name) = true ->
+  hyp_query name (sub_query q) (stream_of c name) = true ->
+  complete_path (cq_prefix q) (cq_path q) <> None ->
+  kp_client i c q (OView (VLeaves l)) = [] ->
+  Permutation (drop_meta l) (spec_view c name (sub_query q)).
+Proof.
+  cbn zeta. intros H1 H2 H3 H4. unfold kp_client. rewrite H1, H2, H3. cbn [andb].
+  destruct (complete_path (cq_prefix q) (cq_path q)); [|congruence].
+  destruct (leaves_eqb _ _) eqn:E.
+  - intros _. symmetry. now apply leaves_eqb_perm.
+  - unfold tagged. destruct (stream_class _ _ _); discriminate.
+Qed.
